@@ -12,6 +12,8 @@ Oracle : Pygments' own (offset, type, text) stream + the harness's offset -> (li
 """
 from __future__ import annotations
 
+import zlib
+
 from itertools import product
 from pathlib import Path
 
@@ -71,7 +73,10 @@ def check_text(lang, text):
     from codelimit.common.lexer_utils import lex
     from codelimit.common.source_utils import location_to_index
 
-    for fc in (False, True):
+    # both settings on the same text, in either order (decided by the text, so a replay repeats it) and once more:
+    # what one call returns must not depend on an earlier call for the same text with the other setting
+    first = zlib.crc32(text.encode("utf-8", "surrogatepass")) & 1 == 1
+    for fc in (first, not first, first):
         want = reference_tokens(lang, text, fc)
         r = call_sut(lex, lexer(lang), text, fc)
         if r[0] == "exc":
